@@ -1144,8 +1144,13 @@ func (ro *RedisOutput) sendCmdsBatch(replayWait usync.WaitCloser, conn client.Re
 		markedCpDb, marked := 0, false
 
 		delayNs := int64(0)
+		// the first command the batcher refused (a cluster batcher refuses a multi-key command whose
+		// keys live on different nodes) : such a command is in no node batch
+		var putErr error
 		for _, ce := range cmdQueue {
-			batcher.Put(ce.Cmd, ce.Args...)
+			if err := batcher.Put(ce.Cmd, ce.Args...); err != nil && putErr == nil {
+				putErr = err
+			}
 			cmdCounter++
 			if ce.syncDelayNs > 0 {
 				if delayNs == 0 || delayNs > ce.syncDelayNs {
@@ -1199,6 +1204,11 @@ func (ro *RedisOutput) sendCmdsBatch(replayWait usync.WaitCloser, conn client.Re
 			batcher.Put("exec")
 		}
 		if batcher.Len() == 0 {
+			if putErr != nil {
+				// nothing to send because every queued command was refused : that is a failure of the
+				// flush, not "nothing to do" (a nil here moves the position past commands no node executed)
+				return failed(putErr)
+			}
 			setMemCP()
 			return nil
 		}
